@@ -686,6 +686,28 @@ type C10FileCase struct {
 	// Mtime: 1 - the second version keeps the modification time of the first (cp -p, two saves within one tick);
 	// 2 - it is dated a day before the first (a backup put back)
 	Mtime int `json:"mtime,omitempty"`
+	// PadKB / PadAt: a block of comment lines of that size is put at the start (0), in front of the last mapping (1) or at the
+	// end (2) of both versions: configurations are not small by nature (many mappings, hundreds of keys, generous comments)
+	PadKB int `json:"pad_kb,omitempty"`
+	PadAt int `json:"pad_at,omitempty"`
+}
+
+func c10Pad(text string, kb, at int) string {
+	if kb <= 0 {
+		return text
+	}
+	line := "# " + strings.Repeat("- note to self ", 8) + "\n"
+	pad := strings.Repeat(line, kb*1024/len(line)+1)
+	switch at {
+	case 1:
+		if i := strings.LastIndex(text, "\n[[mapping]]"); i >= 0 {
+			return text[:i+1] + pad + text[i+1:]
+		}
+		return pad + text
+	case 2:
+		return text + "\n" + pad
+	}
+	return pad + text
 }
 
 var c10FilesRoot string
@@ -731,6 +753,10 @@ func checkC10File(fc C10FileCase) (bool, *Violation) {
 	if len(texts[0]) != len(texts[1]) {
 		return false, nil // the second version must not change the length
 	}
+	for i := range texts {
+		texts[i] = c10Pad(texts[i], fc.PadKB, fc.PadAt)
+	}
+	classifyIf(fc.PadKB > 0, "file larger than 64 KiB")
 	if c10FilesRoot == "" {
 		root, err := os.MkdirTemp(".", "c10files-")
 		if err != nil {
@@ -773,15 +799,15 @@ func checkC10File(fc C10FileCase) (bool, *Violation) {
 				what := []string{"first version", "second version (saved again in place, same length)"}[gen]
 				if derr != nil {
 					if ferr == nil {
-						return violation("C10", "file-invalid-served", "", "%s of the file is rejected by the parser (%v) but the loader serves a configuration for the device (mapping %q)\n%s", what, derr, firstMappingName(&got), text)
+						return violation("C10", "file-invalid-served", "", "%s of the file is rejected by the parser (%v) but the loader serves a configuration for the device (mapping %q)\n%s", what, derr, firstMappingName(&got), clip(text, 3000))
 					}
 					return nil
 				}
 				if ferr != nil {
-					return violation("C10", "file-not-served", "", "%s of the file is a valid configuration but the loader does not serve it: %v\n%s", what, ferr, text)
+					return violation("C10", "file-not-served", "", "%s of the file is a valid configuration but the loader does not serve it: %v\n%s", what, ferr, clip(text, 3000))
 				}
 				if diff := firstDiff(viewFromConfig(&direct), viewFromConfig(&got.Config)); diff != "" {
-					return violation("C10", "file-not-faithful", "", "%s of the file: what the loader returns is not what the file says now; %s\n%s", what, diff, text)
+					return violation("C10", "file-not-faithful", "", "%s of the file: what the loader returns is not what the file says now; %s\n%s", what, diff, clip(text, 3000))
 				}
 				return nil
 			})
@@ -806,7 +832,8 @@ func genC10File(t *rapid.T) C10FileCase {
 	rs := &recSpelling{t: t}
 	_ = RenderTOML(d, rs.spelling())
 	c.Spell = rs.rec
-	return C10FileCase{C: c, Break: rapid.IntRange(0, 3).Draw(t, "break") == 0, Mtime: rapid.SampledFrom([]int{0, 0, 1, 2}).Draw(t, "mtime")}
+	return C10FileCase{C: c, Break: rapid.IntRange(0, 3).Draw(t, "break") == 0, Mtime: rapid.SampledFrom([]int{0, 0, 1, 2}).Draw(t, "mtime"),
+		PadKB: rapid.SampledFrom([]int{0, 0, 0, 0, 0, 0, 0, 63, 65, 130, 300, 1100}).Draw(t, "padKB"), PadAt: rapid.IntRange(0, 2).Draw(t, "padAt")}
 }
 
 func TestC10Files(t *testing.T) { ReplayOrRapid(t, NewRun(t, "C10"), checkC10File, genC10File) }
